@@ -83,6 +83,13 @@ var corpus = []Case{
 	{Note: "archive title outside", Prepop: "empty", Pushes: []Push{arch("../outdir", reg("../outdir/x"))}},
 	{Note: "manifest layer title outside", Prepop: "empty", Pushes: []Push{{Kind: "restore", Title: "../victim"}}},
 	// later additions
+	// seeded C11-3 / C11-r5-2 shapes, made deterministic
+	{Note: "regular entry two levels below a planted directory link, the directory in between exists at the outside location", Prepop: "d", Pushes: []Push{
+		arch("pkg", sym("pkg/d/s", ".."), sym("pkg/d/o", "s/../.."), reg("pkg/d/o/outdir/x"))}},
+	{Note: "entry name starting with ./ (not prefixed with the title) whose .. elements follow an ordinary element", Prepop: "empty", Pushes: []Push{
+		arch("pkg", reg("./sub/../../../victim"))}},
+	{Note: "same shape creating a new file, and as directory / symlink entry", Prepop: "d", Pushes: []Push{
+		arch("pkg", dir("./d/../../../newdir"), reg("./d/../../../newdir/x"), sym("./d/../../../lnk", "x"), reg("./x/../../../outdir/created.txt"))}},
 	// seeded C11-r4-1: store created on a working directory that does not exist yet; the first push creates it and plants links
 	{Note: "working directory absent at the first push, which plants links; then a named blob ending in a planted symlink", Prepop: "absent", Pushes: []Push{
 		arch("pkg", pkgPlant...), blob("pkg/d/f")}},
